@@ -493,7 +493,7 @@ def _same_types(a, b):
 def h_surrogates_ascii(ctx, cfg):
     from pcv import rewrite as rw
     rw.Source.of(J).get_def("value_to_json")
-    reps = ["\ud800", "a\udfffb", "\ud800é", "🤍 \udc80", "x\ud800\U0001F90D", "\udc00\U0001FAE0", "\udc00\U0001FAE8", "\udc00͸", "\ud800'\"\\\n\t\x00\x7f\x85 ", "\ud800" + "\U0010FFFF"]
+    reps = ["'\ud800", "\ud800'", '"\ud800"', "\ud800\\", "''\udc80''", "\ud800", "a\udfffb", "\ud800é", "🤍 \udc80", "x\ud800\U0001F90D", "\udc00\U0001FAE0", "\udc00\U0001FAE8", "\udc00͸", "\ud800'\"\\\n\t\x00\x7f\x85 ", "\ud800" + "\U0010FFFF"]
     for i, v in enumerate(reps):
         for where, wrap, unwrap in (("constant", lambda x: Constant(x), lambda j: j["constant"]), ("name", lambda x: Name(x), lambda j: j["name"]),
                                     ("docstring", lambda x: Function(Args(), x), lambda j: j["docstring"])):
